@@ -28,6 +28,8 @@ type c01Params struct {
 	Programs []string `json:"programs"` // one per thread, letters A, o (recycle oldest), n (recycle newest)
 	Retry    int      `json:"retry_bound"`
 	Level    string   `json:"level"` // list | manager
+	Bound    int      `json:"bound,omitempty"` // 0: all interleavings (state-pruned); n > 0: at most n preemptions
+	Label    string   `json:"label,omitempty"`
 }
 
 const c01Cap = 8 // payload bytes per slot
@@ -516,6 +518,7 @@ func c01Scenarios(thorough bool) (out []c01Params) {
 		}
 		// the smallest scenario that reaches the (known) ABA window: one allocating thread against a 6-op partner
 		add(4, 3, "A", "AAoAnA")
+		c01Big(&out)
 		if os.Getenv("VERIF_NOSIG") != "" {
 			out = out[len(out)-1:]
 			add(4, 3, "AA", "AAoAnA")
@@ -550,6 +553,7 @@ func c01Scenarios(thorough bool) (out []c01Params) {
 			}
 		}
 	}
+	c01Big(&out)
 	// the real retry bound (200) on the smallest list
 	for _, a := range c01Programs(2) {
 		for _, b := range c01Programs(2) {
@@ -557,6 +561,18 @@ func c01Scenarios(thorough bool) (out []c01Params) {
 		}
 	}
 	return out
+}
+
+// c01Big: long free lists (behaviour that depends on how many buffers are free cannot show on 2-5 slots). One thread
+// allocates and recycles one buffer and may be stalled once, anywhere (one preemption) - in particular between the tail
+// CAS and the link store of its push; the other allocates most of the list, recycles it behind the stalled node and
+// drains the list again, through the empty and the "last slot" exits. Every placement of the stall is explored.
+func c01Big(out *[]c01Params) {
+	for _, n := range []int{80, 300} {
+		b := strings.Repeat("A", n-10) + strings.Repeat("o", n-14) + strings.Repeat("A", 14)
+		*out = append(*out, c01Params{Slots: n, Programs: []string{"Ao", b}, Retry: 3, Level: "list", Bound: 1, Label: fmt.Sprintf("long-list-%d-stalled-recycler", n)})
+		*out = append(*out, c01Params{Slots: n, Programs: []string{"AAon", b}, Retry: 3, Level: "list", Bound: 1, Label: fmt.Sprintf("long-list-%d-stalled-recycler-2", n)})
+	}
 }
 
 func TestVerif_C01(t *testing.T) {
@@ -569,12 +585,23 @@ func TestVerif_C01(t *testing.T) {
 	scs := c01Scenarios(w.thorough())
 	for i, p := range scs {
 		name := fmt.Sprintf("c01/%s-n%d-r%d-%s", p.Level, p.Slots, p.Retry, strings.Join(p.Programs, "_"))
+		bound := -1
+		if p.Bound > 0 {
+			bound = p.Bound
+		}
+		if p.Label != "" {
+			name = fmt.Sprintf("c01/%s-%s-bound%d", p.Level, p.Label, bound)
+		}
 		if i == 0 {
-			w.determinism(name, vrt.Options{Bound: -1}, c01Body(p))
+			w.determinism(name, vrt.Options{Bound: bound}, c01Body(p))
 		}
 		if !w.mine() {
 			continue
 		}
-		w.explore(name, p, vrt.Options{Bound: -1}, c01Body(p))
+		o := vrt.Options{Bound: bound}
+		if p.Label != "" {
+			o.StepLimit = 2000000
+		}
+		w.explore(name, p, o, c01Body(p))
 	}
 }
